@@ -2,7 +2,8 @@
 import json, os
 from . import core
 
-TRACE_SPEC = {"reader": ("WSReaderTrace.tla", "WSReaderTrace.cfg"), "writer": ("WSWriterTrace.tla", "WSWriterTrace.cfg"), "conc": ("WSConcTrace.tla", "WSConcTrace.cfg")}
+TRACE_SPEC = {"reader": ("WSReaderTrace.tla", "WSReaderTrace.cfg"), "writer": ("WSWriterTrace.tla", "WSWriterTrace.cfg"), "conc": ("WSConcTrace.tla", "WSConcTrace.cfg"),
+              "rshare": ("WSReaderTrace.tla", "WSReaderTrace.cfg")}
 
 
 import glob as _glob, importlib as _imp
